@@ -1071,4 +1071,819 @@ theorem mkPair_spec (H : BaseOK p base) (hc : Conjunctive p) (labels : List ℕ)
 
 end Boundary
 
+/-! ## 8. `build` and `query` -/
+section Query
+
+theorem build_spec {D : Dom} (c : ℕ) (p : Prov.P) (labels : List ℕ) (dist : List Rat) (b : Built D)
+    (h : build D c p labels dist = .ok b) :
+    compile p = .ok b.base ∧ ∀ t : Option ℕ, (∀ x, t = some x → x < p.data.length) →
+      mkPair D c p labels dist b.base t =
+        .ok (b.withs.getD (bIdx p.data.length t) default, b.withouts.getD (bIdx p.data.length t) default) := by
+  rw [build_eq] at h
+  cases hcomp : (compile p : Except Err (Compiled (AVal D))) with
+  | error e => rw [hcomp] at h; cases h
+  | ok base =>
+    rw [hcomp] at h
+    simp only [bind, Except.bind] at h
+    cases hall : ((List.range p.data.length).map some ++ [none]).mapM (mkPair D c p labels dist base) with
+    | error e => rw [hall] at h; cases h
+    | ok all =>
+      rw [hall] at h
+      simp only [pure, Except.pure, Except.ok.injEq] at h
+      subst h
+      refine ⟨rfl, fun t ht => ?_⟩
+      obtain ⟨h1, h2⟩ := mapM_ok _ _ _ hall
+      have hlen : ((List.range p.data.length).map some ++ [none]).length = p.data.length + 1 := by simp
+      have hi : bIdx p.data.length t < p.data.length + 1 := by
+        cases t with
+        | none => simp [bIdx]
+        | some x => have := ht x rfl; simp only [bIdx]; omega
+      have hget : ((List.range p.data.length).map some ++ [none])[bIdx p.data.length t]'(by rw [hlen]; exact hi) = t := by
+        cases t with
+        | none => simp [bIdx]
+        | some x =>
+          have := ht x rfl
+          simp only [bIdx]
+          rw [List.getElem_append_left (by simpa using this)]
+          simp
+      have := h2 (bIdx p.data.length t) (by rw [hlen]; exact hi) (by rw [h1, hlen]; exact hi)
+      rw [hget] at this
+      rw [this]
+      simp only
+      rw [List.getD_eq_getElem _ _ (by simp [h1]; exact hi), List.getD_eq_getElem _ _ (by simp [h1]; exact hi)]
+      simp
+
+variable {p : Prov.P} {N K c : ℕ}
+
+/-- tally of the labels of the rows present under `a` that are no farther than the boundary `t` -/
+def wTally (p : Prov.P) (labels : List ℕ) (dist : List Rat) (a : List ℕ) (t : Option ℕ) (k : ℕ) : ℕ :=
+  (((incRows p.data.length dist t).filter (present p a)).filter (fun r => labels.getD r 0 == k)).length
+
+/-- the value the `with` diagram of boundary `t` takes at assignment `a` -/
+def wVal (N K c : ℕ) (p : Prov.P) (labels : List ℕ) (dist : List Rat) (a : List ℕ) (t : Option ℕ) : AVal (Dom.tally N K c) :=
+  if okB p a t then AVal.clip (Dom.tally N K c) (tvf c 0 (wTally p labels dist a t) (fun _ => 0)) else none
+
+def woVal (N K c : ℕ) (p : Prov.P) (labels : List ℕ) (dist : List Rat) (a : List ℕ) (t : Option ℕ) : AVal (Dom.tally N K c) :=
+  if okB p a t then AVal.clip (Dom.tally N K c) (tvf c 0 (fun _ => 0) (wTally p labels dist a t)) else none
+
+/-- value of the summed diagram at the assignment `a` (with `a[target] = 0`) -/
+def qVal (N K c : ℕ) (p : Prov.P) (labels : List ℕ) (dist : List Rat) (target : ℕ) (bw bwo : Option ℕ) (a : List ℕ) :
+    AVal (Dom.tally N K c) :=
+  wVal N K c p labels dist (a.set target 1) bw + woVal N K c p labels dist a bwo +
+    AVal.clip (Dom.tally N K c) (tvf c a.sum (fun _ => 0) (fun _ => 0))
+
+theorem sum_ite_binary (l : List ℕ) (h : ∀ x ∈ l, x < 2) : (l.map (fun x => if x = 1 then 1 else 0)).sum = l.sum := by
+  induction l with
+  | nil => rfl
+  | cons x l ih =>
+    have hx := h x (by simp)
+    simp only [List.map_cons, List.sum_cons, ih (fun y hy => h y (by simp [hy]))]
+    have : x = 0 ∨ x = 1 := by omega
+    rcases this with rfl | rfl <;> simp
+
+theorem ones_sum (N K c : ℕ) (args : List ℕ) (h : ∀ x ∈ args, x < 2) :
+    (args.map (fun a => if a = 1 then tallyVal (Dom.tally N K c) 1 (List.replicate c 0) (List.replicate c 0) else 0)).sum =
+      AVal.clip (Dom.tally N K c) (tvf c args.sum (fun _ => 0) (fun _ => 0)) := by
+  have : (fun a => if a = 1 then tallyVal (Dom.tally N K c) 1 (List.replicate c 0) (List.replicate c 0) else 0) =
+      (fun a => AVal.clip (Dom.tally N K c) (tvf c (if a = 1 then 1 else 0) (fun _ => 0) (fun _ => 0))) := by
+    funext a
+    by_cases h : a = 1
+    · rw [if_pos h, if_pos h, tallyVal_one]
+    · rw [if_neg h, if_neg h, aval_zero_eq, tvf_zero]
+  rw [this, sum_clip_tvf, sum_ite_binary _ h]
+  congr 2 <;> (funext k; simp)
+
+theorem query_core {base : Compiled (AVal (Dom.tally N K c))} (H : BaseOK p base) (hn : 2 ≤ p.nUnits)
+    (labels : List ℕ) (dist : List Rat) (target : ℕ) (ht : target < p.nUnits) (bw bwo : Option ℕ)
+    (W WO : Diagram (AVal (Dom.tally N K c))) (sW : Sim base.add W) (sWO : Sim base.add WO)
+    (hW : ∀ a ∈ allAssign p.nUnits, W.eval (reorder base.add.units a) = wVal N K c p labels dist a bw)
+    (hWO : ∀ a ∈ allAssign p.nUnits, WO.eval (reorder base.add.units a) = woVal N K c p labels dist a bwo) :
+    (do
+      let aw ← W.restrict target 1
+      let awo ← WO.restrict target 0
+      let s ← aw.sum awo
+      let s := s.addOnCandidate 1 (tallyVal (Dom.tally N K c) 1 (List.replicate c 0) (List.replicate c 0))
+      pure (s.modelcount AVal.sub? ((Dom.tally N K c).vecs.map (AVal.clip (Dom.tally N K c)))) : Except Err (List Int)) =
+      .ok ((Dom.tally N K c).domain.map (fun e =>
+        (((allAssign p.nUnits).countP (fun a => a.getD target 0 == 0 &&
+          decide (qVal N K c p labels dist target bw bwo a = e)) : ℕ) : Int))) := by
+  have hlen := H.len
+  have hWwf : W.WF := sW.wf H.wf
+  have hWOwf : WO.WF := sWO.wf H.wf
+  have hWu : W.units = base.add.units := sW.2.2.1
+  have hWOu : WO.units = base.add.units := sWO.2.2.1
+  have hWC : W.C = 2 := sW.2.2.2.trans H.C2
+  have hWOC : WO.C = 2 := sWO.2.2.2.trans H.C2
+  have hmem : target ∈ base.add.units := (H.mem_units target).mpr ht
+  obtain ⟨aw, haw⟩ := restrict_ok W target 1 hWwf (by rw [hWu, hlen]; exact hn) (hWu ▸ hmem) (by rw [hWC]; omega)
+  obtain ⟨awo, hawo⟩ := restrict_ok WO target 0 hWOwf (by rw [hWOu, hlen]; exact hn) (hWOu ▸ hmem) (by rw [hWOC]; omega)
+  obtain ⟨_, _, awWF, awU, awC, awE⟩ := restrict_spec W aw target 1 hWwf (by rw [hWu, hlen]; exact hn) haw
+  obtain ⟨_, _, awoWF, awoU, awoC, awoE⟩ := restrict_spec WO awo target 0 hWOwf (by rw [hWOu, hlen]; exact hn) hawo
+  rw [hWu] at awU awE
+  rw [hWOu] at awoU awoE
+  rw [hWC] at awC awE
+  rw [hWOC] at awoC awoE
+  have hsum : ∃ s, aw.sum awo = .ok s := by
+    rw [sum_eq, if_neg (by rw [awU, awoU, awC, awoC]; simp)]; exact ⟨_, rfl⟩
+  obtain ⟨s, hs⟩ := hsum
+  obtain ⟨_, _, sWF, sU, sC, sE⟩ := sum_spec aw awo s awWF awoWF hs
+  have sAd := sum_adRect aw awo s hs
+  rw [awC] at sC sE sAd
+  obtain ⟨s'WF, s'C, s'U, s'E⟩ := addOnCandidate_spec s
+    (tallyVal (Dom.tally N K c) 1 (List.replicate c 0) (List.replicate c 0)) sWF sC sAd
+  simp only [haw, hawo, hs, bind, Except.bind, pure, Except.pure]
+  congr 1
+  rw [C10_modelcount_aval (Dom.tally N K c) (by simp [Dom.dim]) _ s'WF s'C]
+  apply List.map_congr_left
+  intro e _
+  congr 1
+  have hidx : base.add.units.idxOf target < p.nUnits := by
+    rw [← hlen]; exact List.idxOf_lt_length_iff.mpr hmem
+  have hs'len : (s.addOnCandidate 1 (tallyVal (Dom.tally N K c) 1 (List.replicate c 0)
+      (List.replicate c 0))).units.length = p.nUnits - 1 := by
+    rw [s'U, sU, awU, List.length_eraseIdx, if_pos (by rw [hlen]; exact hidx), hlen]
+  rw [hs'len, allArgs_two]
+  -- step 2: the value of the summed diagram in terms of the two boundary diagrams
+  have step2 : ∀ as ∈ allAssign (p.nUnits - 1),
+      evalFrom (s.addOnCandidate 1 (tallyVal (Dom.tally N K c) 1 (List.replicate c 0) (List.replicate c 0))).levels
+        (s.addOnCandidate 1 (tallyVal (Dom.tally N K c) 1 (List.replicate c 0) (List.replicate c 0))).root as =
+      W.eval ((as.insertIdx (base.add.units.idxOf target) 0).set (base.add.units.idxOf target) 1) +
+        WO.eval (as.insertIdx (base.add.units.idxOf target) 0) +
+        ((as.insertIdx (base.add.units.idxOf target) 0).map (fun a => if a = 1 then
+          tallyVal (Dom.tally N K c) 1 (List.replicate c 0) (List.replicate c 0) else 0)).sum := by
+    intro as has
+    obtain ⟨hl, hlt⟩ := (mem_allAssign _ _).mp has
+    have h1 := s'E as (by rw [sU, awU, List.length_eraseIdx, if_pos (by rw [hlen]; exact hidx), hlen, hl]) hlt
+    rw [sE as hlt, awE as (by rw [hl, hlen]; omega) hlt, awoE as (by rw [hl, hlen]; omega) hlt] at h1
+    rw [insertIdx_one_eq_set as _ (by rw [hl]; omega)] at h1
+    have hperm := (List.perm_insertIdx (0 : ℕ) as (i := base.add.units.idxOf target) (by rw [hl]; omega)).map
+      (fun a => if a = 1 then tallyVal (Dom.tally N K c) 1 (List.replicate c 0) (List.replicate c 0) else 0)
+    rw [hperm.sum_eq, List.map_cons, List.sum_cons, if_neg (by omega), zero_add]
+    exact h1
+  obtain ⟨G, hG⟩ : ∃ G : List ℕ → Bool, G = fun args => decide (W.eval (args.set (base.add.units.idxOf target) 1) +
+      WO.eval args + (args.map (fun a => if a = 1 then
+          tallyVal (Dom.tally N K c) 1 (List.replicate c 0) (List.replicate c 0) else 0)).sum = e) := ⟨_, rfl⟩
+  rw [List.countP_congr (q := fun as => G (as.insertIdx (base.add.units.idxOf target) 0))
+    (fun as has => by rw [step2 as has, hG])]
+  rw [countP_insertIdx (base.add.units.idxOf target) (p.nUnits - 1) (by omega) G, Nat.sub_add_cancel (by omega),
+    countP_reorder _ _ H.perm, hG]
+  apply List.countP_congr
+  intro a ha
+  obtain ⟨hl, hlt⟩ := (mem_allAssign _ _).mp ha
+  have hra := (mem_allAssign _ _).mp (reorder_mem _ _ hlen a ha)
+  have h1 : (reorder base.add.units a).getD (base.add.units.idxOf target) 1 = a.getD target 0 := by
+    rw [← reorder_getD _ a target hmem, List.getD_eq_getElem _ _ (by rw [hra.1]; exact hidx),
+      List.getD_eq_getElem _ _ (by rw [hra.1]; exact hidx)]
+  have ha1 : a.set target 1 ∈ allAssign p.nUnits := by
+    rw [mem_allAssign]
+    refine ⟨by simp [hl], fun x hx => ?_⟩
+    rcases List.mem_or_eq_of_mem_set hx with h | h
+    · exact hlt x h
+    · omega
+  beta_reduce
+  rw [h1, reorder_set _ _ H.perm a hl target ht, hW _ ha1, hWO a ha, ones_sum N K c _ hra.2,
+    (reorder_perm _ _ H.perm a hl).sum_eq]
+  rfl
+
+theorem query_spec {b : Built (Dom.tally N K c)} (H : BaseOK p b.base) (hc : Conjunctive p) (hn : 2 ≤ p.nUnits)
+    (labels : List ℕ) (dist : List Rat)
+    (hmk : ∀ t : Option ℕ, (∀ x, t = some x → x < p.data.length) →
+      mkPair (Dom.tally N K c) c p labels dist b.base t =
+        .ok (b.withs.getD (bIdx p.data.length t) default, b.withouts.getD (bIdx p.data.length t) default))
+    (target : ℕ) (ht : target < p.nUnits) (bw bwo : Option ℕ)
+    (hbw : ∀ x, bw = some x → x < p.data.length) (hbwo : ∀ x, bwo = some x → x < p.data.length) :
+    query c b p.data.length target bw bwo =
+      .ok ((Dom.tally N K c).domain.map (fun e =>
+        (((allAssign p.nUnits).countP (fun a => a.getD target 0 == 0 &&
+          decide (qVal N K c p labels dist target bw bwo a = e)) : ℕ) : Int))) := by
+  obtain ⟨sW, _, hW⟩ := mkPair_spec H hc labels dist bw hbw _ _ (hmk bw hbw)
+  obtain ⟨_, sWO, hWO⟩ := mkPair_spec H hc labels dist bwo hbwo _ _ (hmk bwo hbwo)
+  unfold query
+  exact query_core H hn labels dist target ht bw bwo _ _ sW sWO (fun a ha => (hW a ha).1) (fun a ha => (hWO a ha).2)
+
+end Query
+
+/-! ## 9. the by-definition count -/
+section CountSpec
+
+/-- the (uncapped) label tally used by `countSpec` -/
+def specTally (p : Prov.P) (labels : List ℕ) (dist : List Rat) (c : ℕ) (asg : List ℕ) (b : Option ℕ) : List ℕ :=
+  (List.range c).map (fun k =>
+    (((presentRows p asg).filter (fun r => match b with | none => true | some b => dist.getD b 0 ≥ dist.getD r 0)).filter
+      (fun r => labels.getD r 0 == k)).length)
+
+def capK (K : ℕ) (l : List ℕ) : Option (List ℕ) := if l.sum ≤ K then some l else none
+
+theorem countSpec_eq (p : Prov.P) (labels : List ℕ) (dist : List Rat) (c K target : ℕ) (bw bwo : Option ℕ)
+    (t : ℕ) (w wo : List ℕ) :
+    countSpec p labels dist c K target bw bwo t w wo =
+      (allAssign p.nUnits).countP (fun a =>
+        (okB p (a.set target 1) bw && okB p a bwo && a.sum == t &&
+          capK K (specTally p labels dist c (a.set target 1) bw) == some w &&
+          capK K (specTally p labels dist c a bwo) == some wo) && a.getD target 0 == 0) := by
+  unfold countSpec
+  simp only
+  rw [List.countP_filter]
+  congr 1
+  funext a
+  cases bw <;> cases bwo <;> rfl
+
+theorem specTally_eq (p : Prov.P) (labels : List ℕ) (dist : List Rat) (c : ℕ) (a : List ℕ) (b : Option ℕ) :
+    specTally p labels dist c a b = (List.range c).map (wTally p labels dist a b) := by
+  unfold specTally
+  apply List.map_congr_left
+  intro k _
+  unfold wTally incRows
+  rw [presentRows_eq]
+  congr 2
+  rw [List.filter_filter, List.filter_filter]
+  apply List.filter_congr
+  intro r _
+  cases b <;> simp [Bool.and_comm]
+
+theorem capK_eq_some (K : ℕ) (l w : List ℕ) (hw : w.sum ≤ K) : (capK K l == some w) = decide (l = w) := by
+  unfold capK
+  by_cases h : l = w
+  · subst h; simp [hw]
+  · by_cases h2 : l.sum ≤ K
+    · simp [h2, h]
+    · simp [h2, h]
+
+variable {N K c : ℕ}
+
+theorem qVal_eq_iff (p : Prov.P) (labels : List ℕ) (dist : List Rat) (target : ℕ) (bw bwo : Option ℕ) (a : List ℕ)
+    (v : List ℕ) (hv : (Dom.tally N K c).ok v = true) :
+    qVal N K c p labels dist target bw bwo a = AVal.clip (Dom.tally N K c) v ↔
+      okB p (a.set target 1) bw = true ∧ okB p a bwo = true ∧ a.sum = v.headD 0 ∧
+      (List.range c).map (wTally p labels dist (a.set target 1) bw) = (v.drop 1).take c ∧
+      (List.range c).map (wTally p labels dist a bwo) = (v.drop (1 + c)).take c := by
+  have hvl : v.length = 1 + 2 * c := Dom.ok_length hv
+  unfold qVal wVal woVal
+  by_cases h1 : okB p (a.set target 1) bw = true
+  · by_cases h2 : okB p a bwo = true
+    · rw [if_pos h1, if_pos h2, clip_add_clip _ _ (tvf_length ..) (tvf_length ..), tvf_add,
+        clip_add_clip _ _ (tvf_length ..) (tvf_length ..), tvf_add, clip_eq_clip_iff _ _ hv]
+      simp only [Nat.zero_add, Nat.add_zero]
+      rw [tvf_eq_iff _ _ _ _ _ hvl]
+      simp [h1, h2]
+    · rw [if_neg h2, aval_add_none, aval_none_add, AVal.clip_ok hv]
+      simp [h2]
+  · rw [if_neg h1, aval_none_add, aval_none_add, AVal.clip_ok hv]
+    simp [h1]
+
+/-- the predicate counted by `query` is the predicate of `countSpec` -/
+theorem qVal_spec (p : Prov.P) (labels : List ℕ) (dist : List Rat) (target : ℕ) (bw bwo : Option ℕ) (a : List ℕ)
+    (v : List ℕ) (hv : (Dom.tally N K c).ok v = true) :
+    decide (qVal N K c p labels dist target bw bwo a = AVal.clip (Dom.tally N K c) v) =
+      (okB p (a.set target 1) bw && okB p a bwo && a.sum == v.headD 0 &&
+          capK K (specTally p labels dist c (a.set target 1) bw) == some ((v.drop 1).take c) &&
+          capK K (specTally p labels dist c a bwo) == some ((v.drop (1 + c)).take c)) := by
+  obtain ⟨_, _, h3, h4⟩ := (Dom.ok_tally_iff N K c v).mp hv
+  rw [capK_eq_some _ _ _ h3, capK_eq_some _ _ _ h4, specTally_eq, specTally_eq, Bool.eq_iff_iff]
+  simp only [decide_eq_true_eq, Bool.and_eq_true, beq_iff_eq]
+  rw [qVal_eq_iff p labels dist target bw bwo a v hv]
+  tauto
+
+end CountSpec
+
+section Final
+variable {p : Prov.P} {N K c : ℕ}
+
+theorem length_allAssign (n : ℕ) : (allAssign n).length = 2 ^ n := by
+  rw [← allArgs_two, length_allArgs]
+
+theorem count_target_zero (n target : ℕ) (ht : target < n) :
+    (allAssign n).countP (fun a => a.getD target 0 == 0) = 2 ^ (n - 1) := by
+  have h := countP_insertIdx target (n - 1) (by omega) (fun _ => true)
+  rw [Nat.sub_add_cancel (by omega)] at h
+  simp only [List.countP_true, Bool.and_true] at h
+  rw [length_allAssign] at h
+  rw [h]
+  apply List.countP_congr
+  intro a ha
+  have hl := ((mem_allAssign _ _).mp ha).1
+  rw [List.getD_eq_getElem _ _ (by omega), List.getD_eq_getElem _ _ (by omega)]
+
+theorem sum_map_natCast {α : Type} (l : List α) (f : α → ℕ) :
+    (l.map (fun x : α => (Nat.cast (f x) : Int))).sum = (Nat.cast (l.map f).sum : Int) := by
+  induction l with
+  | nil => simp
+  | cons a t ih => simp [ih]
+
+/-- what `query` returns, in terms of the by-definition count -/
+theorem query_counts {b : Built (Dom.tally N K c)} (H : BaseOK p b.base) (hc : Conjunctive p) (hn : 2 ≤ p.nUnits)
+    (labels : List ℕ) (dist : List Rat)
+    (hmk : ∀ t : Option ℕ, (∀ x, t = some x → x < p.data.length) →
+      mkPair (Dom.tally N K c) c p labels dist b.base t =
+        .ok (b.withs.getD (bIdx p.data.length t) default, b.withouts.getD (bIdx p.data.length t) default))
+    (target : ℕ) (ht : target < p.nUnits) (bw bwo : Option ℕ)
+    (hbw : ∀ x, bw = some x → x < p.data.length) (hbwo : ∀ x, bwo = some x → x < p.data.length) :
+    ∃ counts : List Int, query c b p.data.length target bw bwo = .ok counts ∧
+      counts.length = (Dom.tally N K c).vecs.length + 1 ∧
+      (∀ k (hk : k < (Dom.tally N K c).vecs.length), counts.getD k 0 =
+        ((countSpec p labels dist c K target bw bwo ((Dom.tally N K c).vecs[k].headD 0)
+          (((Dom.tally N K c).vecs[k].drop 1).take c) (((Dom.tally N K c).vecs[k].drop (1 + c)).take c) : ℕ) : Int)) ∧
+      counts.sum = 2 ^ (p.nUnits - 1) := by
+  refine ⟨_, query_spec H hc hn labels dist hmk target ht bw bwo hbw hbwo, ?_, ?_, ?_⟩
+  · simp [Dom.domain]
+  · intro k hk
+    have hk' : k < (Dom.tally N K c).domain.length := by simp [Dom.domain]; omega
+    rw [List.getD_eq_getElem _ _ (by simpa using hk'), List.getElem_map]
+    have hdom : (Dom.tally N K c).domain[k] = AVal.clip (Dom.tally N K c) (Dom.tally N K c).vecs[k] := by
+      simp only [Dom.domain]
+      rw [List.getElem_append_left (by simpa using hk), List.getElem_map]
+    rw [hdom, countSpec_eq]
+    congr 1
+    apply List.countP_congr
+    intro a _
+    have hv : (Dom.tally N K c).ok (Dom.tally N K c).vecs[k] = true :=
+      (Dom.mem_vecs _ _).mp (List.getElem_mem hk)
+    rw [qVal_spec p labels dist target bw bwo a _ hv, Bool.and_comm]
+  · rw [sum_map_natCast]
+    have h := sum_countP_fibres (Dom.tally N K c).domain (Dom.nodup_domain _) Dom.mem_domain
+      (qVal N K c p labels dist target bw bwo) ((allAssign p.nUnits).filter (fun a => a.getD target 0 == 0))
+    rw [← List.countP_eq_length_filter, count_target_zero _ _ ht] at h
+    rw [show ((2 : Int) ^ (p.nUnits - 1)) = ((2 ^ (p.nUnits - 1) : ℕ) : Int) by push_cast; rfl, ← h]
+    congr 2
+    apply List.map_congr_left
+    intro e _
+    rw [List.countP_filter]
+    congr 1
+    funext a
+    rw [Bool.and_comm]
+
+end Final
+
+/-! ## 10. the executable check `locSpecOk` is sound -/
+section LocSpecOk
+
+theorem eraseDups_length_le {α : Type} [BEq α] [LawfulBEq α] (l : List α) : l.eraseDups.length ≤ l.length := by
+  induction hn : l.length using Nat.strong_induction_on generalizing l with
+  | _ n ih =>
+    cases l with
+    | nil => simp
+    | cons a as =>
+      rw [List.eraseDups_cons]
+      have h1 : (as.filter (fun b => !b == a)).length ≤ as.length := List.length_filter_le _ _
+      have := ih (as.filter (fun b => !b == a)).length (by rw [← hn, List.length_cons]; omega) (as.filter (fun b => !b == a)) rfl
+      simp only [List.length_cons] at hn ⊢; omega
+
+theorem nodup_of_eraseDups_length {α : Type} [BEq α] [LawfulBEq α] (l : List α)
+    (h : l.eraseDups.length = l.length) : l.Nodup := by
+  induction hn : l.length using Nat.strong_induction_on generalizing l with
+  | _ n ih =>
+    cases l with
+    | nil => exact List.nodup_nil
+    | cons a as =>
+      rw [List.eraseDups_cons] at h
+      have h1 : (as.filter (fun b => !b == a)).length ≤ as.length := List.length_filter_le _ _
+      have h2 := eraseDups_length_le (as.filter (fun b => !b == a))
+      simp only [List.length_cons] at h
+      have h3 : (as.filter (fun b => !b == a)).length = as.length := by omega
+      have h4 := List.length_filter_eq_length_iff.mp h3
+      have h5 : as.filter (fun b => !b == a) = as := List.filter_eq_self.mpr h4
+      rw [h5] at h
+      rw [List.nodup_cons]
+      refine ⟨fun hmem => ?_, ih as.length (by rw [← hn]; simp) as (by omega) rfl⟩
+      have := h4 a hmem
+      simp at this
+
+/-- the executable check discharges `LocSpec` -/
+theorem locSpecOk_sound {V : Type} (p : Prov.P) (cmp : Compiled V) (h : locSpecOk p cmp = true) : LocSpec p cmp := by
+  unfold locSpecOk at h
+  simp only [Bool.and_eq_true] at h
+  obtain ⟨h1, h2⟩ := h
+  simp only [List.all_eq_true, Bool.and_eq_true, beq_iff_eq, decide_eq_true_eq] at h1
+  refine ⟨fun loc hloc => nodup_of_eraseDups_length _ (h1 loc hloc).1, fun loc hloc e he => ?_, fun args hargs r hr => ?_⟩
+  · have := (h1 loc hloc).2 e he
+    exact ⟨this.1.1, this.1.2, this.2⟩
+  · have := List.all_eq_true.mp (List.all_eq_true.mp h2 args hargs) r (List.mem_range.mpr hr)
+    exact beq_iff_eq.mp this
+
+end LocSpecOk
+
+/-! ## 11. `compile`, one unit per row (chain diagram) -/
+section Chain
+
+/-- every row names exactly one unit (`nConj = 1`, no padding) -/
+def OneUnit (p : Prov.P) : Prop :=
+  p.nConj = 1 ∧ ∀ r ∈ p.data, (r.getD 0 []).length = 1 ∧ ((r.getD 0 []).getD 0 Prov.padLit).1 ≠ -1
+
+instance (p : Prov.P) : Decidable (OneUnit p) := by unfold OneUnit; infer_instance
+
+/-- the locations `compile` assigns in the chain case -/
+def chainLocs (p : Prov.P) : List (List (ℕ × ℕ × ℕ)) :=
+  p.data.map (fun r => [(((r.getD 0 []).getD 0 Prov.padLit).1.toNat, 0, ((r.getD 0 []).getD 0 Prov.padLit).2.toNat)])
+
+theorem compile_chain {V : Type} [Add V] [Zero V] (p : Prov.P) (h1 : p.nDisj ≤ 1) (h2 : p.nConj = 1) :
+    (compile p : Except Err (Compiled V)) = .ok { add := chain (List.range p.nUnits) p.nCands, locs := chainLocs p } := by
+  unfold compile
+  simp only [show ¬ (p.nDisj > 1) by omega, h2, if_false, beq_self_eq_true, if_true]
+  rfl
+
+theorem le_of_mem_pathEdges {V : Type} {L : List (Level V)} {j : ℕ} {as : List ℕ} {i : ℕ} {e : ℕ × ℕ × ℕ}
+    (he : e ∈ pathEdges L j as i) : i ≤ e.1 := by
+  induction L generalizing i j as with
+  | nil => cases as <;> simp [pathEdges] at he
+  | cons lv rest ih =>
+    cases as with
+    | nil => simp [pathEdges] at he
+    | cons a as =>
+      simp only [pathEdges, List.mem_cons] at he
+      rcases he with rfl | he
+      · exact Nat.le_refl _
+      · have := ih he; omega
+
+/-- in a chain the path of `as` crosses the edge `(u, 0, v)` iff `as[u] = v` -/
+theorem chain_cross {V : Type} [AddCommMonoid V] (C m : ℕ) (as : List ℕ) (i u v : ℕ) (hl : as.length = m) :
+    ((pathEdges (List.replicate m [(liveZero C : Node V)]) 0 as i).filter
+        (fun e => [(i + u, 0, v)].contains e)).length =
+      if u < m ∧ as.getD u 0 = v then 1 else 0 := by
+  induction m generalizing as i u with
+  | zero =>
+    have : as = [] := List.length_eq_zero_iff.mp hl
+    subst this; simp [pathEdges]
+  | succ m ih =>
+    cases as with
+    | nil => simp at hl
+    | cons a as =>
+      simp only [List.replicate_succ, pathEdges]
+      have hch : (nodeAt [(liveZero C : Node V)] 0).ch a = 0 := liveZero_ch C a
+      rw [hch]
+      cases u with
+      | zero =>
+        have htail : (pathEdges (List.replicate m [(liveZero C : Node V)]) 0 as (i + 1)).filter
+            (fun e => [(i + 0, 0, v)].contains e) = [] := by
+          rw [List.filter_eq_nil_iff]
+          intro e he
+          have := le_of_mem_pathEdges he
+          simp only [List.contains_iff_mem, List.mem_singleton]
+          intro h; rw [h] at this; simp at this
+        rw [List.filter_cons, htail]
+        by_cases hav : a = v
+        · subst hav; simp
+        · have : ¬ (v = a) := fun h => hav h.symm
+          simp [hav, this]
+      | succ u =>
+        have hne : ¬ ([(i + (u + 1), 0, v)].contains (i, 0, a) = true) := by
+          simp only [List.contains_iff_mem, List.mem_singleton, Prod.mk.injEq]
+          omega
+        rw [List.filter_cons, if_neg hne, show i + (u + 1) = i + 1 + u by omega,
+          ih as (i + 1) u (by simpa using hl)]
+        simp
+
+theorem idxOf_range (n u : ℕ) (h : u < n) : (List.range n).idxOf u = u := by
+  have h1 : (List.range n).idxOf u < (List.range n).length :=
+    List.idxOf_lt_length_iff.mpr (List.mem_range.mpr h)
+  have := List.getElem_idxOf h1
+  rwa [List.getElem_range] at this
+
+variable {D : Dom}
+
+/-- `compile` of a one-unit-per-row provenance: the chain over `range nUnits`, which satisfies everything
+the main theorem needs -/
+theorem chain_baseOK (p : Prov.P) (hc : Conjunctive p) (h1 : OneUnit p) (hC : p.nCands = 2) :
+    BaseOK (D := D) p { add := chain (List.range p.nUnits) p.nCands, locs := chainLocs p } := by
+  have hrow : ∀ r ∈ p.data, ∃ u : ℕ, u < p.nUnits ∧ r.getD 0 [] = [((u : Int), 1)] := by
+    intro r hr
+    obtain ⟨hl, hne⟩ := h1.2 r hr
+    obtain ⟨l, hl'⟩ := List.length_eq_one_iff.mp hl
+    rw [hl'] at hne
+    simp only [List.getD_cons_zero] at hne
+    obtain ⟨h2, h3, h4⟩ := (hc.2 r hr).1 l (by rw [hl']; simp) hne
+    refine ⟨l.1.toNat, by omega, ?_⟩
+    rw [hl']
+    congr 1
+    apply Prod.ext
+    · simp [Int.toNat_of_nonneg h3]
+    · exact h2
+  refine ⟨chain_wf _ _, ?_, hC, List.Perm.refl _, fun args => eval_chain _ _ args, ⟨?_, ?_, ?_⟩⟩
+  · intro lv hlv nd hnd
+    simp only [chain, List.mem_map] at hlv
+    obtain ⟨_, _, rfl⟩ := hlv
+    simp only [List.mem_singleton] at hnd
+    subst hnd
+    simp [liveZero, hC]
+  · intro loc hloc
+    simp only [chainLocs, List.mem_map] at hloc
+    obtain ⟨r, _, rfl⟩ := hloc
+    exact List.nodup_singleton _
+  · intro loc hloc e he
+    simp only [chainLocs, List.mem_map] at hloc
+    obtain ⟨r, hr, rfl⟩ := hloc
+    obtain ⟨u, hu, hrow'⟩ := hrow r hr
+    simp only [hrow', List.getD_cons_zero, List.mem_singleton] at he
+    subst he
+    simp only [chain, List.length_map, List.length_range, Int.toNat_natCast]
+    refine ⟨hu, ?_, by rw [hC]; decide⟩
+    rw [List.getD_eq_getElem _ _ (by simpa using hu)]
+    simp
+  · intro args hargs r hr
+    have hmem := getD_mem_data p r hr
+    obtain ⟨u, hu, hrow'⟩ := hrow _ hmem
+    have hlits : rowLits (p.data.getD r []) = [(u, 1)] := by
+      have hne : (((u : Int), (1 : Int)).1 != -1 && ((u : Int), (1 : Int)).2 != -1) = true := by
+        simp
+      unfold rowLits
+      rw [hrow', List.filter_cons, if_pos hne]
+      simp
+    have hloc : (chainLocs p).getD r [] = [(u, 0, 1)] := by
+      unfold chainLocs
+      rw [List.getD_eq_getElem _ _ (by simpa using hr), List.getElem_map, ← List.getD_eq_getElem _ [] hr, hrow']
+      simp
+    have hl : args.length = p.nUnits := by
+      have := ((mem_allAssign _ _).mp hargs).1
+      simpa [chain] using this
+    have hlv : (chain (List.range p.nUnits) p.nCands : Diagram (AVal D)).levels =
+        List.replicate p.nUnits [(liveZero p.nCands : Node (AVal D))] := by
+      simp [chain, List.map_const']
+    have := chain_cross (V := AVal D) p.nCands p.nUnits args 0 u 1 hl
+    rw [Nat.zero_add] at this
+    show ((pathEdges (chain (List.range p.nUnits) p.nCands : Diagram (AVal D)).levels 0 args 0).filter
+        (fun e => ((chainLocs p).getD r []).contains e)).length =
+      if (rowLits (p.data.getD r [])).all (fun uv => args.getD ((List.range p.nUnits).idxOf uv.1) 0 == uv.2) then 1 else 0
+    rw [hlv, hloc, hlits, this]
+    simp [idxOf_range _ _ hu, hu]
+
+end Chain
+
+/-! ## 12. `compile`, general case: the diagram is built by `stack` / `concatenate` from chains -/
+section General
+variable {V : Type} [AddCommMonoid V]
+
+/-- a property of the edge-value arrays of all nodes -/
+def AdAll (P : List V → Prop) (L : List (Level V)) : Prop := ∀ lv ∈ L, ∀ nd ∈ lv, P nd.adder
+
+theorem chain_adAll (P : List V → Prop) (units : List ℕ) (C : ℕ) (hP : P (List.replicate C 0)) :
+    AdAll P (chain units C : Diagram V).levels := by
+  intro lv hlv nd hnd
+  simp only [chain, List.mem_map] at hlv
+  obtain ⟨_, _, rfl⟩ := hlv
+  simp only [List.mem_singleton] at hnd
+  subst hnd
+  exact hP
+
+theorem stack_adAll (P : List V → Prop) (hP : P (List.replicate 2 0)) (factors : List ℕ) (els : List (Diagram V))
+    (d : Diagram V) (h : stack factors els = .ok d) (hels : ∀ e ∈ els, AdAll P e.levels) : AdAll P d.levels := by
+  cases els with
+  | nil => cases h
+  | cons e0 rest =>
+    rw [stack_eq] at h
+    split at h
+    · cases h
+    split at h
+    · cases h
+    split at h
+    · cases h
+    simp only [Except.ok.injEq] at h
+    subst h
+    intro lv hlv nd hnd
+    simp only [List.mem_append, List.mem_map, List.mem_range] at hlv
+    rcases hlv with ⟨i, _, rfl⟩ | ⟨i, _, rfl⟩
+    · simp only [hdrLevel, List.mem_map, List.mem_range] at hnd
+      obtain ⟨j, _, rfl⟩ := hnd
+      split
+      · exact hP
+      · exact hP
+    · simp only [bodyLevel, List.mem_flatMap, List.mem_map] at hnd
+      obtain ⟨eo, heo, nd', hnd', rfl⟩ := hnd
+      have he : eo.1 ∈ e0 :: rest := (List.of_mem_zip heo).1
+      by_cases hi : i < eo.1.levels.length
+      · rw [List.getD_eq_getElem _ _ hi] at hnd'
+        exact hels _ he _ (List.getElem_mem hi) nd' hnd'
+      · rw [List.getD_eq_default _ _ (Nat.le_of_not_lt hi)] at hnd'
+        simp at hnd'
+
+theorem go_adAll (P : List V → Prop) (hP : P (List.replicate 2 0)) (diam : ℕ) (els : List (Diagram V))
+    (hels : ∀ e ∈ els, AdAll P e.levels) : AdAll P (concatenate.go diam els) := by
+  have hpad : ∀ e ∈ els, AdAll P (e.levels.map (padLevel 2 · diam)) := by
+    intro e he lv hlv nd hnd
+    simp only [List.mem_map] at hlv
+    obtain ⟨lv', hlv', rfl⟩ := hlv
+    simp only [padLevel, List.mem_append, List.mem_replicate] at hnd
+    rcases hnd with hnd | ⟨_, rfl⟩
+    · exact hels e he lv' hlv' nd hnd
+    · exact hP
+  match els with
+  | [] => intro lv hlv; simp [concatenate.go] at hlv
+  | [e] => rw [concatenate.go.eq_2]; exact hpad e (by simp)
+  | e :: e' :: rest =>
+    rw [go_cons_cons]
+    intro lv hlv
+    rw [List.mem_append] at hlv
+    rcases hlv with hlv | hlv
+    · refine forall_mem_modify (P := fun lv => ∀ nd ∈ lv, P nd.adder) _ _ (fun x hx => hpad e (by simp) x hx) (fun x hx => ?_) lv hlv
+      intro nd hnd
+      simp only [redirect, List.mem_map] at hnd
+      obtain ⟨nd', hnd', rfl⟩ := hnd
+      split
+      · exact hx nd' hnd'
+      · exact hx nd' hnd'
+    · exact go_adAll P hP diam (e' :: rest) (fun x hx => hels x (by simp [hx])) lv hlv
+
+theorem concat_adAll (P : List V → Prop) (hP : P (List.replicate 2 0)) (els : List (Diagram V)) (d : Diagram V)
+    (h : concatenate els = .ok d) (hels : ∀ e ∈ els, AdAll P e.levels) : AdAll P d.levels := by
+  cases els with
+  | nil => cases h
+  | cons e0 rest =>
+    rw [concatenate_eq] at h
+    split at h
+    · cases h
+    split at h
+    · cases h
+    split at h
+    · cases h
+    simp only [Except.ok.injEq] at h
+    subst h
+    exact go_adAll P hP _ _ hels
+
+theorem adAll_zero {L : List (Level V)} (h : AdAll (fun ad => ad = List.replicate 2 0) L) :
+    AdRect 2 L ∧ ∀ j as, evalFrom L j as = 0 := by
+  refine ⟨fun lv hlv nd hnd => by rw [h lv hlv nd hnd]; simp, fun j as => ?_⟩
+  apply eval_zeroAd
+  intro lv hlv j c
+  apply zeroAd_of_forall
+  intro nd hnd c
+  unfold Node.ad
+  rw [h lv hlv nd hnd]
+  by_cases hc : c < 2
+  · have : c = 0 ∨ c = 1 := by omega
+    rcases this with rfl | rfl <;> rfl
+  · rw [List.getD_eq_default _ _ (by simpa using hc)]
+
+end General
+
+section General2
+variable {V : Type} [AddCommMonoid V]
+
+theorem compile_general (p : Prov.P) (cmp : Compiled V) (h : compile p = .ok cmp) (h2 : p.nConj ≠ 1) :
+    ∃ vertical : List (Diagram V), concatenate vertical = .ok cmp.add ∧
+      ∀ e ∈ vertical, ∃ lvs factors, e = chain lvs p.nCands ∨
+        stack factors (List.replicate (p.nCands ^ factors.length) (chain lvs p.nCands)) = .ok e := by
+  unfold compile at h
+  simp only [beq_iff_eq, h2, if_false] at h
+  generalize (List.flatMap (fun r => pairsOf (dedupSorted (rowUnits r))) p.data).eraseDups = pairs at h
+  generalize leafUnits p.nUnits pairs = leaves at h
+  generalize components p.nUnits pairs = comps at h
+  split at h
+  · cases h
+  split at h
+  · cases h
+  cases hv : comps.mapM (fun comp =>
+      if (comp.filter (fun u => !leaves.contains u)).isEmpty = true then
+        (pure (chain (comp.filter (fun u => leaves.contains u)) p.nCands) : Except Err (Diagram V))
+      else stack (comp.filter (fun u => !leaves.contains u))
+        (List.replicate (p.nCands ^ (comp.filter (fun u => !leaves.contains u)).length)
+          (chain (comp.filter (fun u => leaves.contains u)) p.nCands))) with
+  | error e => rw [hv] at h; cases h
+  | ok vertical =>
+    rw [hv] at h
+    simp only [bind, Except.bind] at h
+    cases ha : concatenate vertical with
+    | error e => rw [ha] at h; cases h
+    | ok add =>
+      rw [ha] at h
+      simp only at h
+      cases hl : p.data.mapM (fun r => add.getUpdateLocation (rowLits r)) with
+      | error e => rw [hl] at h; cases h
+      | ok locs =>
+        rw [hl] at h
+        simp only [pure, Except.pure, Except.ok.injEq] at h
+        subst h
+        refine ⟨vertical, ha, fun e he => ?_⟩
+        obtain ⟨h1, h2⟩ := mapM_ok _ _ _ hv
+        obtain ⟨i, hi, rfl⟩ := List.mem_iff_getElem.mp he
+        have := h2 i (by omega) hi
+        split at this
+        · simp only [pure, Except.pure, Except.ok.injEq] at this
+          exact ⟨_, [], Or.inl this.symm⟩
+        · exact ⟨_, _, Or.inr this⟩
+
+theorem compile_nDisj (p : Prov.P) (cmp : Compiled V) (h : compile p = .ok cmp) : p.nDisj ≤ 1 := by
+  by_contra hh
+  unfold compile at h
+  rw [if_pos (by omega)] at h
+  cases h
+
+/-- `C09_compile_partial`: whatever `compile` returns is a `Reach`able binary diagram whose nodes store two
+values each, all of them zero -/
+theorem compile_reach (p : Prov.P) (cmp : Compiled V) (h : compile p = .ok cmp) (hC : p.nCands = 2) :
+    Reach cmp.add ∧ cmp.add.C = 2 ∧ AdRect 2 cmp.add.levels ∧ ∀ args, cmp.add.eval args = 0 := by
+  by_cases h2 : p.nConj = 1
+  · rw [compile_chain p (compile_nDisj p cmp h) h2] at h
+    simp only [Except.ok.injEq] at h
+    subst h
+    have hA := adAll_zero (chain_adAll (V := V) (fun ad => ad = List.replicate 2 0) (List.range p.nUnits) p.nCands
+      (by rw [hC]))
+    exact ⟨Reach.chain _ _, hC, hA.1, fun args => hA.2 _ args⟩
+  · obtain ⟨vertical, hcat, hel⟩ := compile_general p cmp h h2
+    have hR : ∀ e ∈ vertical, Reach e ∧ AdAll (fun ad => ad = List.replicate 2 0) e.levels := by
+      intro e he
+      obtain ⟨lvs, factors, rfl | hst⟩ := hel e he
+      · exact ⟨Reach.chain _ _, chain_adAll _ _ _ (by rw [hC])⟩
+      · refine ⟨Reach.stack factors _ e lvs.length (fun e' he' => ?_) (fun e' he' => ?_) hst,
+          stack_adAll (fun ad => ad = List.replicate 2 0) rfl factors _ e hst (fun e' he' => ?_)⟩
+        · rw [(List.mem_replicate.mp he').2]; exact Reach.chain _ _
+        · rw [(List.mem_replicate.mp he').2]; exact ⟨hC, rfl⟩
+        · rw [(List.mem_replicate.mp he').2]; exact chain_adAll _ _ _ (by rw [hC])
+    have hA := adAll_zero (concat_adAll (fun ad => ad = List.replicate 2 0) rfl vertical cmp.add hcat (fun e he => (hR e he).2))
+    exact ⟨Reach.concat vertical cmp.add (fun e he => (hR e he).1) hcat,
+      (concat_spec vertical cmp.add hcat (fun e he => (hR e he).1.inv.1)).2.2.1, hA.1, fun args => hA.2 _ args⟩
+
+end General2
+
+/-! ## 13. assembling the hypotheses; success of `build`; the one-unit defect -/
+section Assemble
+variable {p : Prov.P} {N K c : ℕ}
+
+theorem baseOK_of_compile {D : Dom} (p : Prov.P) (cmp : Compiled (AVal D)) (h : compile p = .ok cmp) (hC : p.nCands = 2)
+    (hperm : cmp.add.units.Perm (List.range p.nUnits)) (hloc : LocSpec p cmp) : BaseOK p cmp := by
+  obtain ⟨h1, h2, h3, h4⟩ := compile_reach p cmp h hC
+  exact ⟨h1.inv.1, h3, h2, hperm, h4, hloc⟩
+
+theorem last_of_sum (counts : List Int) (m : ℕ) (T : Int) (hl : counts.length = m + 1) (hs : counts.sum = T) :
+    counts.getD m 0 = T - (counts.take m).sum := by
+  have h1 : counts = counts.take m ++ [counts.getD m 0] := by
+    rw [List.getD_eq_getElem _ _ (by omega)]
+    apply List.ext_getElem
+    · simp; omega
+    · intro i hi1 hi2
+      by_cases hi : i < m
+      · rw [List.getElem_append_left (by simp; omega)]; simp
+      · have : i = m := by omega
+        subst this
+        rw [List.getElem_append_right (by simp)]
+        simp
+  rw [h1, List.sum_append] at hs
+  simp only [List.sum_cons, List.sum_nil, add_zero] at hs
+  omega
+
+theorem mapM_ok_of_forall {α β : Type} (f : α → Except Err β) (l : List α) (h : ∀ x ∈ l, ∃ y, f x = .ok y) :
+    ∃ ys, l.mapM f = .ok ys := by
+  induction l with
+  | nil => exact ⟨[], rfl⟩
+  | cons a l ih =>
+    obtain ⟨y, hy⟩ := h a (by simp)
+    obtain ⟨ys, hys⟩ := ih (fun x hx => h x (by simp [hx]))
+    refine ⟨y :: ys, ?_⟩
+    rw [List.mapM_cons, hy, hys]; rfl
+
+theorem mkPair_ok {D : Dom} (c : ℕ) (p : Prov.P) (labels : List ℕ) (dist : List Rat) (base : Compiled (AVal D))
+    (hc : Conjunctive p) (hperm : base.add.units.Perm (List.range p.nUnits)) (t : Option ℕ)
+    (ht : ∀ x, t = some x → x < p.data.length) : ∃ pr, mkPair D c p labels dist base t = .ok pr := by
+  cases t with
+  | none => exact ⟨_, rfl⟩
+  | some b =>
+    have hb := ht b rfl
+    have hrow := (hc.rowLits _ (getD_mem_data p b hb)).2
+    have hmem : ∀ u ∈ rowUnits (p.data.getD b []), u ∈ base.add.units := fun u hu => by
+      rw [hperm.mem_iff]; simpa using hrow u hu
+    unfold mkPair
+    simp only
+    rw [foldlM_ok (fun u => base.add.getUpdateLocation [(u, 0)]) (fun u => unitLoc base.add u 0)
+      (fun (ds : Diagram (AVal D) × Diagram (AVal D)) loc =>
+        (ds.1.update loc none false, ds.2.update loc none false)) _
+      (fun u hu => getUpdateLocation_single base.add u 0 (hmem u hu))]
+    exact ⟨_, rfl⟩
+
+/-- `ShapleyOracle.__init__` succeeds whenever `compile` does (conjunctive provenance over the diagram's units) -/
+theorem build_ok {D : Dom} (c : ℕ) (p : Prov.P) (labels : List ℕ) (dist : List Rat) (base : Compiled (AVal D))
+    (hcomp : compile p = .ok base) (hc : Conjunctive p) (hperm : base.add.units.Perm (List.range p.nUnits)) :
+    ∃ b, build D c p labels dist = .ok b ∧ b.base = base := by
+  obtain ⟨all, hall⟩ := mapM_ok_of_forall (mkPair D c p labels dist base) ((List.range p.data.length).map some ++ [none])
+    (by
+      intro t ht
+      apply mkPair_ok c p labels dist base hc hperm t
+      intro x hx
+      subst hx
+      simp only [List.mem_append, List.mem_map, List.mem_range, Option.some.injEq, List.mem_singleton,
+        reduceCtorEq, or_false] at ht
+      obtain ⟨y, hy, rfl⟩ := ht
+      exact hy)
+  refine ⟨{ base := base, withs := all.map (·.1), withouts := all.map (·.2) }, ?_, rfl⟩
+  rw [build_eq, hcomp]
+  simp only [bind, Except.bind]
+  rw [hall]
+  rfl
+
+/-- finding F3b: with a single unit `query` raises `IndexError` (`restrict` on a one-variable diagram) -/
+theorem query_single {b : Built (Dom.tally N K c)} (H : BaseOK p b.base) (hc : Conjunctive p) (hn : p.nUnits = 1)
+    (labels : List ℕ) (dist : List Rat)
+    (hmk : ∀ t : Option ℕ, (∀ x, t = some x → x < p.data.length) →
+      mkPair (Dom.tally N K c) c p labels dist b.base t =
+        .ok (b.withs.getD (bIdx p.data.length t) default, b.withouts.getD (bIdx p.data.length t) default))
+    (bw bwo : Option ℕ) (hbw : ∀ x, bw = some x → x < p.data.length) :
+    query c b p.data.length 0 bw bwo = .error Err.indexError := by
+  obtain ⟨sW, _, _⟩ := mkPair_spec H hc labels dist bw hbw _ _ (hmk bw hbw)
+  have hWwf := sW.wf H.wf
+  have hu : (b.withs.getD (bIdx p.data.length bw) default).units = b.base.add.units := sW.2.2.1
+  have hl : (b.withs.getD (bIdx p.data.length bw) default).units.length = 1 := by rw [hu, H.len, hn]
+  have hr := restrict_single (b.withs.getD (bIdx p.data.length bw) default) 0 1 (by rw [hWwf.len, hl]) hl
+    (by rw [hu, H.mem_units]; omega) (by rw [sW.2.2.2, H.C2]; omega)
+  unfold query
+  rw [hr]
+  rfl
+
+end Assemble
+
 end Ds.Oracle
